@@ -149,7 +149,20 @@ pub fn generate(rng: &mut Rng, max_len: usize, max_cases: usize, allow_task: boo
         want.push_str(&s1);
         want.push_str(&s2);
         want.push('|');
-        src.push_str(&format!("fn case_{i}(pipe: channel<string>) -> string {{\n{decls}    \"\" .. {} .. \"|\" .. ({x} .. {y}) .. \"|\"\n}}\n", parts.join(" .. ")));
+        // concatenation of values that are turned into strings on the fly: the operand exists only
+        // as a temporary (nothing but the in-flight instruction refers to it), and the left
+        // operand may be empty
+        let n1 = match rng.below(4) {
+            0 => 0,
+            1 => rng.below(10) as i64,
+            2 => 1_000_000 + rng.below(1_000_000) as i64,
+            _ => rng.below(100_000) as i64,
+        };
+        let n2 = rng.below(1000) as i64;
+        let (xs, _) = operand(rng, &s1, &mut decls, "xs");
+        let stringify = format!("(\"\" .. {n1}) .. \"|\" .. ({n1} .. {n2}) .. \"|\" .. ({xs} .. {n2}) .. \"|\" .. ({n2} .. \"\")");
+        want.push_str(&format!("{n1}|{n1}{n2}|{s1}{n2}|{n2}"));
+        src.push_str(&format!("fn case_{i}(pipe: channel<string>) -> string {{\n{decls}    \"\" .. {} .. \"|\" .. ({x} .. {y}) .. \"|\" .. {stringify}\n}}\n", parts.join(" .. ")));
         expected.push((i as i64, want));
         descr.push(format!("{category}({},{})", s1.len(), s2.len()));
     }
